@@ -217,7 +217,7 @@ type c48Trace struct {
 
 var (
 	c48RePid = regexp.MustCompile(`/proc/[0-9]+`)
-	c48ReTmp = regexp.MustCompile(`(tmp-[^/]*-)[0-9]+`)
+	c48ReTmp = regexp.MustCompile(`[0-9]{6,}`) // os.CreateTemp random suffixes
 )
 
 func (c c48Call) key(dir string) string {
@@ -230,7 +230,7 @@ func (c c48Call) key(dir string) string {
 	}
 	p = strings.ReplaceAll(p, dir, "{D}")
 	p = c48RePid.ReplaceAllString(p, "/proc/PID")
-	p = c48ReTmp.ReplaceAllString(p, "${1}N")
+	p = c48ReTmp.ReplaceAllString(p, "N")
 	p = strings.TrimSuffix(p, " (deleted)")
 	return c.Name + " " + p
 }
@@ -482,6 +482,7 @@ func customC48(d *run.Driver) {
 	close(jc)
 	wg.Wait()
 	d.Extra["scenarios"] = scInfo
+	d.Extra["strace_crosscheck"] = c48StraceCrossCheck(e, scs, scInfo)
 	d.Extra["injector"] = "tools/crashinj: ptrace (TRACECLONE|TRACEFORK|TRACEVFORK|TRACEEXEC|TRACESYSGOOD|EXITKILL), PTRACE_GET_SYSCALL_INFO entry stops, one global counter over all threads; SIGKILL of the thread group at the entry stop of call i"
 }
 
@@ -628,4 +629,57 @@ func execC48(c run.Case) (res run.Result) {
 	}
 	_, res = c48KillPass(e, sc, pt.I, rec, news, tr.Calls[pt.I-1])
 	return
+}
+
+// c48StraceCrossCheck compares (evidence only, never a verdict) the per-name histogram of
+// the injector's list with what `strace -f` reports for the first scenario.
+func c48StraceCrossCheck(e *c48Env, scs []c48Scenario, scInfo map[string]any) string {
+	st, err := exec.LookPath("strace")
+	if err != nil || len(scs) == 0 {
+		return "strace not available"
+	}
+	sc := &scs[0]
+	info, ok := scInfo[sc.ID].(map[string]any)
+	if !ok {
+		return "first scenario was not recorded"
+	}
+	dir, err := e.setup(sc)
+	if err != nil {
+		return err.Error()
+	}
+	defer os.RemoveAll(dir)
+	out := filepath.Join(e.base, "strace.txt")
+	args := []string{"-f", "-qq", "-o", out, "-e", "trace=open,openat,openat2,creat,write,pwrite64,writev,pwritev,close,rename,renameat,renameat2,unlink,unlinkat,rmdir,truncate,ftruncate,fsync,fdatasync,chmod,fchmod,fchmodat,mkdir,mkdirat,link,linkat,symlink,symlinkat", e.d2}
+	cmd := exec.Command(st, append(args, sc.Args...)...)
+	cmd.Dir = dir
+	cmd.Env = e.env()
+	if err := cmd.Run(); err != nil {
+		return "strace run failed: " + err.Error()
+	}
+	b, _ := os.ReadFile(out)
+	hist := map[string]int{}
+	for _, ln := range strings.Split(string(b), "\n") {
+		f := strings.SplitN(strings.TrimSpace(ln), " ", 2)
+		if len(f) < 2 {
+			continue
+		}
+		rest := strings.TrimSpace(f[1])
+		i := strings.IndexByte(rest, '(')
+		if i <= 0 || strings.HasPrefix(rest, "<") || strings.HasPrefix(rest, "+") || strings.HasPrefix(rest, "-") {
+			continue
+		}
+		if strings.Contains(rest, "anon_inode") {
+			continue
+		}
+		hist[rest[:i]]++
+	}
+	want, _ := info["by_name"].(map[string]int)
+	// strace cannot tell eventfd writes from file writes; compare the path-based calls and report both
+	same := true
+	for _, k := range []string{"openat", "rename", "renameat", "renameat2", "unlink", "unlinkat", "mkdir", "mkdirat", "fsync", "fchmod", "ftruncate"} {
+		if hist[k] != want[k] {
+			same = false
+		}
+	}
+	return fmt.Sprintf("scenario %s: strace -f %v, injector %v, path-based calls agree=%v", sc.ID, hist, want, same)
 }
